@@ -1,10 +1,12 @@
 package props
 
 import (
+	"errors"
 	"fmt"
 	"sort"
 	"strings"
 
+	z "github.com/Oudwins/zog"
 	"github.com/Oudwins/zog/parsers/zjson"
 
 	"zogverif/internal/core"
@@ -25,7 +27,7 @@ func (c13) ID() string { return "C13" }
 func (c13) Info(t core.Tier) core.Info {
 	return core.Info{
 		Level: "exploration",
-		Rule: "each case = one generated schema (all kinds except Preprocess; catch, default, post-transforms, struct tags, shared nodes) x 6 fully populated, correctly typed values (no zero or blank leaf, no empty slice, no nil pointer; valid or violating tests) x 2 rebuilds, each preceded by 0-2 unrelated earlier calls (JSON front end / plain map, results sometimes collected); " +
+		Rule: "each case = one generated schema (all kinds; Preprocess and failing transforms in a directed part; catch, default, post-transforms, struct tags, shared nodes) x 6 fully populated, correctly typed values (no zero or blank leaf, no empty slice, no nil pointer; valid or violating tests) x 2 rebuilds, each preceded by 0-2 unrelated earlier calls (JSON front end / plain map, results sometimes collected); " +
 			"oracle (relational, real code only): Validate(&v) and Parse(toMap(v), &fresh) return the same multiset of (path, code, type, message) and leave equal values. non-trivial: >= 1 issue, or a catch changed the value; distinct by (schema, value).",
 		Assumptions: commonAssumptions,
 		MinDistinct: 50,
@@ -43,7 +45,73 @@ func quad(cs []obs.CI) []string {
 	return out
 }
 
+// c13Errors: failures that do not come from a test - a Preprocess function refusing, a PostTransform returning a plain error or
+// its own ZogIssue, at the root, in a nested struct, on a slice and on a primitive - are reported alike by both modes.
+func c13Errors(c *core.Ctx) bool {
+	plain := errors.New("transform refused")
+	mkIssue := func() error {
+		return &z.ZogIssue{Code: "app_code", Path: "elsewhere", Message: "the application's message"}
+	}
+	kind := c.R.Intn(3)
+	ret := func(any) error {
+		switch kind {
+		case 0:
+			return plain
+		case 1:
+			return mkIssue()
+		}
+		return fmt.Errorf("wrapped: %w", plain)
+	}
+	failPost := []spec.Post{{Name: fmt.Sprintf("returns-error(kind %d)", kind), Fn: ret}}
+	leaf := func() *spec.Node { return &spec.Node{Kind: spec.String, Witness: "value"} }
+	var root *spec.Node
+	where := c.R.Intn(6)
+	switch where {
+	case 0: // struct-level transform at the root
+		root = structOf("a", leaf(), "b", leaf())
+		root.Posts = failPost
+	case 1: // struct-level transform of a nested struct
+		in := structOf("x", leaf())
+		in.Posts = failPost
+		root = structOf("a", leaf(), "in", in)
+	case 2: // slice-level transform
+		sl := sliceOf(leaf())
+		sl.Posts = failPost
+		root = structOf("a", leaf(), "l", sl)
+	case 3: // primitive transform
+		l := leaf()
+		l.Posts = failPost
+		root = structOf("a", l, "b", leaf())
+	case 4: // struct behind a slice
+		in := structOf("x", leaf())
+		in.Posts = failPost
+		root = structOf("l", sliceOf(in))
+	default: // a Preprocess function that refuses
+		pre := &spec.Node{Kind: spec.Pre, Elem: leaf(), PreName: "refuses", PreFn: func(any) (any, error) { return nil, plain }}
+		root = structOf("a", leaf(), "p", pre)
+	}
+	root.Number()
+	v := gen.ValueTree(c.R, root, gen.InOpts{ValidPct: 100}, true)
+	data := gen.ToParseMap(root, v)
+	oV := run.Validate(spec.Build(root, &spec.Hooks{FieldOrder: permutedOrder(c.R)}), v)
+	oP := run.Parse(spec.Build(root, &spec.Hooks{FieldOrder: permutedOrder(c.R)}), data, nil)
+	c.Eval(2)
+	qv, qp := quad(oV.Issues), quad(oP.Issues)
+	a, b := obs.MultisetDiff(qv, qp)
+	if oV.Panicked || oP.Panicked || len(a) > 0 || len(b) > 0 || len(qv) == 0 {
+		c.Violation("modes-disagree-on-issues|non-test-failure", map[string]any{"schema": root.Source(), "value": obs.Render(v), "what_fails": []string{"plain error", "own ZogIssue", "wrapped plain error"}[kind],
+			"validate_issues": issuesText(oV), "parse_issues": issuesText(oP), "panic": fmt.Sprint(oV.Panic, oP.Panic)})
+		return false
+	}
+	c.Count("non_test_failures_compared", 1)
+	c.NonTrivial(fpf("c13err|%d|%d", where, kind))
+	return true
+}
+
 func (c13) RunCase(c *core.Ctx) {
+	if c.Case%25 == 3 && !c13Errors(c) {
+		return
+	}
 	o := gen.DefaultOpts()
 	o.CatchPct = 30
 	o.ModChains = c.R.Intn(3) == 0
